@@ -221,67 +221,55 @@ def expected_truncated(nodes, data, c):
 # ------------------------------------------------------------------ C20: starved schedules
 
 def starved(data, blocking_items, chunks, buffered):
-    """Does some call of the async run find the inner iterator at the end of the delivered data before the
-    source is exhausted?  blocking_items: parse_items of the blocking run; chunks: bytes delivered per call
-    (after the script: everything, 64 KiB at a time)."""
+    """Does some call of the async run find the inner iterator short of data before the source is exhausted?
+    (nonblocking.rs: one source read of at most 64 KiB per call, then one blocking next() that treats "nothing more yet" as
+    end of input.)  blocking_items: parse_items of the blocking run; chunks: sizes the scripted source returns per call."""
     n = len(data)
-    deliveries = []
+    cum = []
     d = 0
     for c in chunks:
-        k = min(c, 65536, n - d)
-        d += k
-        deliveries.append(d)
-    if deliveries and deliveries[0] >= n:
-        return False
-    if not deliveries and n <= 65536:
+        d += min(c, 65536, n - d)
+        cum.append(d)
+
+    def delivered(k):
+        if k < len(cum):
+            return cum[k]
+        base = cum[-1] if cum else 0
+        return min(n, base + 65536 * (k - len(cum) + 1))
+
+    if delivered(0) >= n:
         return False
     if buffered:
         return True
-    # batches: zero or more Ends followed by one non-End item; need = bytes required to produce the batch
+    if any(it[0] == "err" for it in blocking_items):
+        return True
     batches = []
-    cur = []
+    cur = 0
     for it in blocking_items:
         if it[0] != "item":
             break
-        cur.append(it)
+        cur += 1
         tag, off = it[1], it[2]
         if tag[0] != "e":
             h = E.header_at(data, off)
             if h is None:
                 return True
-            need = off + h[1] + h[3] + (0 if tag[0] == "s" else (h[2] or 0))
-            batches.append((len(cur), need))
-            cur = []
-    term = next((it for it in blocking_items if it[0] != "item"), None)
-    if term is not None and term[0] == "err":
-        return True     # error runs: the async wrapper may see the error earlier/later; treated as part of the class
-    batches.append((len(cur), n + 1 if False else n))   # final EOF batch needs the whole input delivered and EOF
-    call = 0
-    queue = 0
-    bi = 0
-
-    def delivered(k):
-        if k < len(deliveries):
-            return deliveries[k]
-        base = deliveries[-1] if deliveries else 0
-        return min(n, base + 65536 * (k - len(deliveries) + 1))
-
-    while bi < len(batches):
+            batches.append((cur, off + h[1] + h[3] + (0 if tag[0] == "s" else (h[2] or 0)), False))
+            cur = 0
+    batches.append((cur, n, True))
+    call, queue, bi = 0, 0, 0
+    while call < 4 * n + 100:
         dk = delivered(call)
         if queue == 0:
-            cnt, need = batches[bi]
-            last = bi == len(batches) - 1
-            if need > dk or (last and dk < n):
+            if bi == len(batches):
+                return False
+            cnt, need, last = batches[bi]
+            if (last and dk < n) or need > dk:
                 return True
-            if dk < n and need == dk and not last:
-                # the batch itself fits, fine
-                pass
             queue += cnt
             bi += 1
             if cnt == 0:
-                break
+                return False
         queue -= 1
         call += 1
-        if call > 4 * n + 100:
-            break
     return False
